@@ -15,7 +15,9 @@ package c03
 //	                    hj stream filter hijack, without / with body | dr direct-response route, without / with body |
 //	                    tm asynchronous TerminateStream while the worker is parked
 //
-// plus the client's reset of the downstream stream delivered from INSIDE one of the sender calls (`h` | `d` | `t`, `-` none).
+// plus the client's departure delivered from INSIDE one of the sender calls: the reset of the downstream stream (`h` | `d` |
+// `t`) or the close event of the downstream connection (`H` | `D` | `T`: proxy.onDownstreamEvent skips a stream whose
+// upstreamProcessDone is set); `-` none.
 //
 //	rw <src> <f_h><f_d><f_t> <reset>  =>  calls=<h|d|t><eos><+|->,… dr=<n> ur=<n> logs=<n> down=<n> streams=<n> up=<n> done=<b> st=<status>
 //
@@ -129,8 +131,11 @@ func rwCases() []rwCase {
 			parts = append(parts, 't')
 		}
 		resets := append([]byte{0}, parts...)
+		for _, p := range parts {
+			resets = append(resets, p-'a'+'A') // the connection-close event instead of the stream reset
+		}
 		if s.src == "st" {
-			resets = []byte{'h'} // without the reset the streamed body is still in flight when the reply is written: the codec's business
+			resets = []byte{'h', 'H'} // without the reset the streamed body is still in flight when the reply is written: the codec's business
 		}
 		for mask := 0; mask < 8; mask++ {
 			fail := [3]bool{mask&1 != 0, mask&2 != 0, mask&4 != 0}
@@ -258,20 +263,19 @@ func runRW(k rwCase) string {
 	return fmt.Sprintf("calls=%s dr=%d ur=%d logs=%d down=%d streams=%d up=%d done=%s st=%s", cs, dr, ur, logs, l.DownActive, l.ActiveStreams, l.UpActive["c"], bit(ex.Done()), status)
 }
 
-// RunRW emits the `rw` cases: every header-only reply (all sources, all outcomes, all reset positions) always, the rest
-// sampled in the quick tier and complete (twice) in the thorough tier.
+// RunRW emits the `rw` cases: the complete enumeration source x failing parts x reset position in both tiers.
 func RunRW(c *hx.Ctx, prop string) {
 	rng := c.Rng.Fork().Fork()
 	all := rwCases()
-	var pick []rwCase
-	for _, k := range all {
-		headerOnly := !k.d && !k.t
-		if c.Thorough() || headerOnly || rng.Chance(35) {
-			pick = append(pick, k)
-		}
-	}
+	// the whole enumeration is small (320 cases, about a second): it runs completely in both tiers, twice in the thorough one;
+	// the order is shuffled so that the eight workers see a different interleaving per seed
+	pick := append([]rwCase{}, all...)
 	if c.Thorough() {
 		pick = append(pick, all...)
+	}
+	for i := len(pick) - 1; i > 0; i-- {
+		j := rng.Intn(i + 1)
+		pick[i], pick[j] = pick[j], pick[i]
 	}
 	jobs := make(chan rwCase)
 	var wg sync.WaitGroup
